@@ -10,14 +10,13 @@ import (
 
 func init() {
 	register(&Rule{ID: "R-list-siblings", Floor: 14, Run: ruleListSiblings,
-		Doc: "every comma-separated list loop of the parser (a `for` whose condition tests the current token for ',') has the sibling shape: consume ','; if the current token is the list's closer (optionally: or EOF) leave the loop without consuming anything; otherwise parse one element; and after the loop the closer is consumed exactly once (expect-family call with the closer kind, or next() under a test that established the closer). Any other shape rejects or mis-parses a trailing comma — C07: a trailing comma in a list never changes the tree — or consumes the closer twice, which turns `[a, b,]` into a syntax error."})
+		Doc: "every comma-separated list loop of the parser (a `for` that tests the current token for ',' in its condition or at the top level of its body) has the sibling shape on every path through an iteration, wherever the tests are written (loop condition, `if`, switch clause, predicate helper): after a ',' was consumed nothing is consumed before the path has decided whether the current token is the list's closer (optionally: or EOF); if it is, the path leaves the loop without consuming anything; otherwise one element is parsed; and after the loop the closer is consumed exactly once (expect-family call with the closer kind, or next() under a test that established the closer). Any other shape rejects or mis-parses a trailing comma — C07: a trailing comma in a list never changes the tree — or consumes the closer twice, which turns `[a, b,]` into a syntax error."})
 }
 
 type pxListLoop struct {
 	lp        pxLoop
 	parents   map[ast.Node]ast.Node
-	closerIf  *ast.IfStmt
-	closers   []string // kinds tested by closerIf (including EOF when present)
+	closers   []string // kinds whose presence ends the list (including EOF when tested)
 	closer    string   // the non-EOF closer
 	condOther bool     // loop condition has a disjunct besides `== ','`
 }
@@ -33,6 +32,9 @@ func ruleListSiblings(c *Ctx) []Obligation {
 				continue
 			}
 			info := r.info
+			// a list loop tests the current token for ',' at its own level: in its condition
+			// (`for cur == ','`) or in its body (`for { if cur != ',' { break } … }`, a loop on
+			// the closer with a first-iteration flag, …); nested loops and closures are not this loop
 			condComma, condOther, bodyComma := false, false, false
 			if lp.loop.Cond != nil {
 				pxAtoms(lp.loop.Cond, func(a ast.Expr) {
@@ -44,6 +46,10 @@ func ruleListSiblings(c *Ctx) []Obligation {
 				})
 			}
 			ast.Inspect(lp.loop.Body, func(n ast.Node) bool {
+				switch n.(type) {
+				case *ast.ForStmt, *ast.RangeStmt, *ast.FuncLit:
+					return false
+				}
 				if e, ok := n.(ast.Expr); ok {
 					if k, _, ok := r.kindAtom(info, e); ok && k == r.comma {
 						bodyComma = true
@@ -51,17 +57,15 @@ func ruleListSiblings(c *Ctx) []Obligation {
 				}
 				return true
 			})
-			if !condComma {
-				if bodyComma {
-					obs = append(obs, Obligation{Key: lp.key + "|list loop shape", Pos: c.Pos(lp.loop.Pos()), Status: Undecided,
-						Detail: "the loop body tests the current token for ',' but the loop condition does not: a list loop of a shape this rule does not know"})
-				}
+			if !condComma && !bodyComma {
 				continue
 			}
 			ll := &pxListLoop{lp: lp, condOther: condOther}
 			key := strings.Replace(lp.key, "|loop#", "|list loop#", 1)
 			if i := strings.Index(key, " for "); i > 0 {
 				key = key[:i]
+			} else {
+				key = strings.TrimSuffix(key, " for") // `for {` without a condition
 			}
 			o1, o2, row := r.checkListLoop(ll, key)
 			obs = append(obs, o1, o2)
@@ -118,155 +122,180 @@ func (r *pxRoles) checkListLoop(ll *pxListLoop, key string) (shape, after Obliga
 	after = Obligation{Key: key + "|closer consumed exactly once, after the loop", Pos: pos, Nontrivial: true}
 	fname := FuncName(ll.lp.fd)
 
-	// the closer test: first top-level `if` of the body whose condition is a
-	// disjunction of `cursor.Kind == K` and whose body ends by leaving the loop
-	for _, s := range loop.Body.List {
-		ifs, ok := s.(*ast.IfStmt)
-		if !ok || ifs.Else != nil || len(ifs.Body.List) == 0 {
+	// One iteration = the loop condition taken true, then the body. Every path through it is
+	// read as a trace of cursor tests and token-consuming calls; what the path knows about the
+	// current token (is K / is not K) is reset whenever a token is consumed. The trailing-comma
+	// shape is a property of these traces, not of where the tests are written:
+	//   closers     kinds K != ',' for which some path establishes "current is K" and then leaves
+	//               the loop (break, or the loop condition false) without consuming anything;
+	//   (1) after a ',' has been consumed nothing else is consumed until the path has decided
+	//       whether the current token is the closer;
+	//   (2) once the current token is known to be a closer nothing is consumed and the path
+	//       leaves the loop;
+	//   (3) otherwise an element is parsed before the next iteration, and the loop is not left
+	//       right after an element.
+	paths, res := r.listIterPaths(ll)
+	closerSet := map[string]bool{}
+	for _, p := range paths {
+		if p.infeasible || !(p.condFalse || p.kind == cBreak) {
 			continue
 		}
-		br, ok := ifs.Body.List[len(ifs.Body.List)-1].(*ast.BranchStmt)
-		if !ok || br.Tok != token.BREAK {
-			continue
-		}
-		var ks []string
-		pure := true
-		pxAtoms(ifs.Cond, func(a ast.Expr) {
-			if k, eq, ok := r.kindAtom(info, a); ok && eq && k != r.comma {
-				ks = append(ks, k)
-			} else {
-				pure = false
+		for _, k := range p.endIs {
+			if k != r.comma {
+				closerSet[k] = true
 			}
-		})
-		if !pure || len(ks) == 0 || !pxIsDisjunction(ifs.Cond) {
-			continue
 		}
-		ll.closerIf, ll.closers = ifs, ks
-		for _, k := range ks {
-			if k != r.eof {
-				if ll.closer != "" && ll.closer != k {
-					ll.closer = ll.closer + "|" + k
-				} else {
-					ll.closer = k
+	}
+	nonEOF := 0
+	for k := range closerSet {
+		if k != r.eof {
+			nonEOF++
+		}
+	}
+	if nonEOF == 0 {
+		// no path sees a closer and leaves untouched: take the kinds after whose recognition a path
+		// breaks out at all (the closer is then consumed inside the loop, which (2) reports)
+		for _, p := range paths {
+			if !p.infeasible && p.kind == cBreak {
+				for _, k := range p.lastIs {
+					if k != r.comma {
+						closerSet[k] = true
+					}
 				}
 			}
 		}
-		break
 	}
-	if ll.closerIf == nil || ll.closer == "" {
+	for k := range closerSet {
+		ll.closers = append(ll.closers, k)
+	}
+	sort.Strings(ll.closers)
+	for _, k := range ll.closers {
+		if k != r.eof {
+			if ll.closer != "" {
+				ll.closer = ll.closer + "|" + k
+			} else {
+				ll.closer = k
+			}
+		}
+	}
+	if ll.closer == "" {
 		shape.Status = Violated
 		shape.Detail = "after consuming ',' the loop body never tests the current token for the list's closer and leaves: a trailing comma before the closer is parsed as the start of another element and rejected"
 		after.Status, after.Detail = Undecided, "closer kind unknown (no closer test in the loop)"
 		return shape, after, fmt.Sprintf("%s: no closer test", fname)
 	}
-	hasEOF := false
-	for _, k := range ll.closers {
-		if k == r.eof {
-			hasEOF = true
+	hasEOF := closerSet[r.eof]
+	// the loop condition leaves the loop by itself when the current token is K
+	condLeavesOn := map[string]bool{}
+	if loop.Cond != nil {
+		var conj func(e ast.Expr)
+		conj = func(e ast.Expr) {
+			e = ast.Unparen(e)
+			if b, ok := e.(*ast.BinaryExpr); ok && b.Op == token.LAND {
+				conj(b.X)
+				conj(b.Y)
+				return
+			}
+			if k, eq, ok := r.kindAtom(info, e); ok && !eq {
+				condLeavesOn[k] = true
+			}
 		}
+		conj(loop.Cond)
 	}
-	inCloserCond := func(p token.Pos) bool { return p >= ll.closerIf.Cond.Pos() && p < ll.closerIf.Cond.End() }
 
-	// ---- shape of the body
+	// ---- shape of the iterations
 	var fails []string
 	npaths := 0
 	commaCond := false
-	res := r.pxWalk(loop.Body, pxNewState(), pxWalkOpts{pkg: ll.lp.pk, maxPaths: 20000}, func(st *pxState, oc outcome) {
-		if oc.kind == cPanic {
-			return
+	consuming := func(e pxEv) bool { return e.kind == pxEvCall && (e.consumes || r.isNext(e.fn) || e.expect) }
+	for _, p := range paths {
+		if p.infeasible || p.condFalse || p.kind == cPanic {
+			continue
 		}
 		npaths++
-		path := strings.Join(st.decisions, ", ")
-		i := 0
-		evs := st.evs
-		// A: the comma
-		commaPresent := true
-		if i < len(evs) && evs[i].kind == pxEvTest && evs[i].tkind == r.comma && !inCloserCond(evs[i].pos) {
-			commaCond = true
-			commaPresent = evs[i].teq == evs[i].taken
-			i++
+		path := p.decisions
+		f := pxNewCurFacts()
+		reset := func() { f = pxNewCurFacts() }
+		closerTrue := func() bool { return f.allIn(closerSet) }
+		closerFalse := func() bool {
+			if len(f.in) > 0 {
+				return f.noneIn(closerSet)
+			}
+			for _, k := range ll.closers {
+				if k != r.eof && !f.not[k] {
+					return false
+				}
+			}
+			return true
 		}
-		if commaPresent {
-			isCommaConsume := i < len(evs) && evs[i].kind == pxEvCall && (r.isNext(evs[i].fn) || (evs[i].expect && pxHas(evs[i].argKinds, r.comma)))
-			if !isCommaConsume {
-				what := "nothing"
-				if i < len(evs) {
-					what = pxEvString(r, evs[i])
-				}
-				fails = append(fails, fmt.Sprintf("path [%s]: the first action of an iteration is not next() / expect(',') consuming the ',' but %s", path, what))
-				return
-			}
-			if !evs[i].ok {
-				if oc.kind != cReturn {
-					fails = append(fails, fmt.Sprintf("path [%s]: the result of next() consuming the ',' is not tested", path))
-				}
-				return // error exit
-			}
-			i++
-		} else if !ll.condOther {
-			fails = append(fails, fmt.Sprintf("path [%s]: iteration entered without a ',' although the loop condition admits nothing else", path))
-			return
-		}
-		// B: closer tests come next
-		matched := false
-		seenCloser := false
-		for i < len(evs) {
-			e := evs[i]
-			if e.kind == pxEvTest && inCloserCond(e.pos) {
-				seenCloser = true
-				if e.teq == e.taken {
-					matched = true
-				}
-				i++
-				continue
-			}
-			if e.kind == pxEvTest {
-				if seenCloser {
-					break
-				}
-				i++ // unrelated kind test before the closer test: harmless unless something is consumed
-				continue
-			}
-			if !seenCloser && (e.consumes || r.isNext(e.fn) || e.expect) {
-				fails = append(fails, fmt.Sprintf("path [%s]: %s runs after the ',' before the closer was tested: a trailing comma is not accepted", path, pxEvString(r, e)))
-				return
-			}
-			if seenCloser {
+		afterSep, sepSeen := false, false
+		elems := 0
+		bad := false
+		for _, e := range p.evs {
+			if bad {
 				break
 			}
-			i++
-		}
-		if !seenCloser {
-			if oc.kind == cReturn {
-				return
+			if e.kind == pxEvTest {
+				f.learn(e)
+				continue
 			}
-			fails = append(fails, fmt.Sprintf("path [%s]: reaches the end of the iteration without the closer test", path))
-			return
-		}
-		if matched {
-			for ; i < len(evs); i++ {
-				e := evs[i]
-				if e.kind == pxEvCall && (e.consumes || r.isNext(e.fn) || e.expect) {
-					fails = append(fails, fmt.Sprintf("path [%s]: having seen the closer %s the loop calls %s before leaving: the closer is consumed inside the loop (and expected again after it)", path, ll.closer, pxEvString(r, e)))
-					return
+			if !consuming(e) {
+				continue
+			}
+			if closerTrue() {
+				fails = append(fails, fmt.Sprintf("path [%s]: having seen the closer %s the loop calls %s before leaving: the closer is consumed inside the loop (and expected again after it)", path, ll.closer, pxEvString(r, e)))
+				bad = true
+				break
+			}
+			if afterSep && !closerFalse() {
+				fails = append(fails, fmt.Sprintf("path [%s]: %s runs after the ',' before the closer was tested: a trailing comma is not accepted", path, pxEvString(r, e)))
+				bad = true
+				break
+			}
+			isSep := (r.isNext(e.fn) && f.is() == r.comma) || (e.expect && pxHas(e.argKinds, r.comma))
+			if isSep {
+				if e.hasErr && !e.ok {
+					if p.kind != cReturn {
+						fails = append(fails, fmt.Sprintf("path [%s]: the result of next() consuming the ',' is not tested", path))
+					}
+					bad = true // error exit
+					break
 				}
+				afterSep, sepSeen = true, true
+				reset()
+				continue
 			}
-			if oc.kind != cBreak && oc.kind != cReturn {
+			afterSep = false
+			if e.consumes && e.ok {
+				elems++
+			}
+			reset()
+		}
+		if bad || p.kind == cReturn {
+			continue
+		}
+		leaves := p.kind == cBreak
+		switch {
+		case closerTrue():
+			if !leaves && !f.allIn(condLeavesOn) {
 				fails = append(fails, fmt.Sprintf("path [%s]: having seen the closer the iteration does not leave the loop", path))
 			}
-			return
-		}
-		// C: an element
-		if oc.kind == cReturn {
-			return
-		}
-		if !st.consumed || pxCountOK(evs[i:]) == 0 {
-			fails = append(fails, fmt.Sprintf("path [%s]: no element is parsed after the ',' (no successful consuming call): %s", path, pxConsumingCalls(st)))
-		}
-		if oc.kind == cBreak {
+		case afterSep && !closerFalse():
+			fails = append(fails, fmt.Sprintf("path [%s]: reaches the end of the iteration without the closer test", path))
+		case afterSep:
+			fails = append(fails, fmt.Sprintf("path [%s]: no element is parsed after the ',' (no successful consuming call): %s", path, pxConsumingCalls(p.st)))
+			if leaves {
+				fails = append(fails, fmt.Sprintf("path [%s]: leaves the loop after the ',' without the closer having been seen", path))
+			}
+		case leaves && elems > 0:
 			fails = append(fails, fmt.Sprintf("path [%s]: leaves the loop after an element without the closer having been seen", path))
+		case !leaves && elems == 0:
+			fails = append(fails, fmt.Sprintf("path [%s]: no element is parsed in the iteration (no successful consuming call): %s", path, pxConsumingCalls(p.st)))
 		}
-	})
+		if !sepSeen && elems > 0 {
+			commaCond = true
+		}
+	}
 	switch {
 	case res.overflow || len(res.unsupported) > 0:
 		shape.Status, shape.Detail = Undecided, "path enumeration overflow or unsupported control flow"
@@ -275,7 +304,7 @@ func (r *pxRoles) checkListLoop(ll *pxListLoop, key string) (shape, after Obliga
 	default:
 		shape.Status = Discharged
 		shape.Detail = fmt.Sprintf("%d path(s): ',' consumed (result tested)%s; closer %s%s tested next, taken branch leaves without consuming; otherwise an element is parsed",
-			npaths, map[bool]string{true: " when present (separator optional by the loop condition)", false: ""}[commaCond], ll.closer, map[bool]string{true: " or EOF", false: ""}[hasEOF])
+			npaths, map[bool]string{true: " when present (separator optional on some path)", false: ""}[commaCond], ll.closer, map[bool]string{true: " or EOF", false: ""}[hasEOF])
 	}
 
 	// ---- after the loop
@@ -469,4 +498,137 @@ func (r *pxRoles) stmtsAfter(fd *ast.FuncDecl, loop ast.Stmt) []ast.Stmt {
 			cur = l
 		}
 	}
+}
+
+// pxIterPath: one path through an iteration of a list loop (loop condition taken
+// true, then the body), or the path on which the loop condition is false.
+type pxIterPath struct {
+	evs        []pxEv
+	kind       ctrlKind // cNormal / cContinue: back edge; cBreak; cReturn; cPanic
+	condFalse  bool
+	infeasible bool   // the cursor tests on the path contradict each other
+	endIs      []string // the kinds the current token is known to be one of at the end of the path (nil unknown), nothing consumed since
+	lastIs     []string // the last membership a test on the path established, whatever was consumed afterwards
+	decisions  string
+	st         *pxState
+}
+
+func (r *pxRoles) listIterPaths(ll *pxListLoop) ([]pxIterPath, pxWalkResult) {
+	loop := ll.lp.loop
+	sentinel := &ast.ReturnStmt{}
+	var blk *ast.BlockStmt
+	if loop.Cond != nil {
+		blk = &ast.BlockStmt{List: []ast.Stmt{&ast.IfStmt{If: loop.Pos(), Cond: loop.Cond, Body: loop.Body, Else: &ast.BlockStmt{List: []ast.Stmt{sentinel}}}}}
+	} else {
+		blk = loop.Body
+	}
+	var out []pxIterPath
+	res := r.pxWalk(blk, pxNewState(), pxWalkOpts{pkg: ll.lp.pk, maxPaths: 20000}, func(st *pxState, oc outcome) {
+		p := pxIterPath{evs: st.evs, kind: oc.kind, decisions: strings.Join(st.decisions, ", "), st: st}
+		if oc.ret == sentinel {
+			p.condFalse, p.kind = true, cNormal
+		}
+		// knowledge about the current token, reset by every consuming call
+		f := pxNewCurFacts()
+		for _, e := range st.evs {
+			if e.kind == pxEvTest {
+				if !f.learn(e) {
+					p.infeasible = true
+				}
+				if e.teq == e.taken {
+					p.lastIs = append([]string(nil), f.in...)
+				}
+				continue
+			}
+			if e.kind == pxEvCall && (e.consumes || r.isNext(e.fn) || e.expect) {
+				f = pxNewCurFacts()
+			}
+		}
+		p.endIs = append([]string(nil), f.in...)
+		out = append(out, p)
+	})
+	return out, res
+}
+
+// pxCurFacts: what a path knows about the kind of the current token since the
+// last consumption: it is one of `in` (nil: unknown) and none of `not`.
+type pxCurFacts struct {
+	in  []string
+	not map[string]bool
+}
+
+func pxNewCurFacts() *pxCurFacts { return &pxCurFacts{not: map[string]bool{}} }
+
+func (f *pxCurFacts) is() string {
+	if len(f.in) == 1 {
+		return f.in[0]
+	}
+	return ""
+}
+
+// learn adds the outcome of a cursor test; false when it contradicts what is known.
+func (f *pxCurFacts) learn(e pxEv) bool {
+	set := e.tset
+	if len(set) == 0 {
+		set = []string{e.tkind}
+	}
+	if e.teq == e.taken {
+		// the current token is one of set
+		var keep []string
+		for _, k := range set {
+			if f.not[k] {
+				continue
+			}
+			if len(f.in) > 0 && !pxHas(f.in, k) {
+				continue
+			}
+			keep = append(keep, k)
+		}
+		if len(keep) == 0 {
+			f.in = append([]string(nil), set...)
+			return false
+		}
+		f.in = keep
+		return true
+	}
+	// the current token is none of set
+	ok := true
+	for _, k := range set {
+		f.not[k] = true
+	}
+	if len(f.in) > 0 {
+		var keep []string
+		for _, k := range f.in {
+			if !f.not[k] {
+				keep = append(keep, k)
+			}
+		}
+		if len(keep) == 0 {
+			ok = false
+		} else {
+			f.in = keep
+		}
+	}
+	return ok
+}
+
+func (f *pxCurFacts) allIn(set map[string]bool) bool {
+	if len(f.in) == 0 {
+		return false
+	}
+	for _, k := range f.in {
+		if !set[k] {
+			return false
+		}
+	}
+	return true
+}
+
+func (f *pxCurFacts) noneIn(set map[string]bool) bool {
+	for _, k := range f.in {
+		if set[k] {
+			return false
+		}
+	}
+	return true
 }
